@@ -173,8 +173,8 @@ def _derive(d):
         json.dump(out, fh)
 
 
-def _prune(keep=12, min_age=3600):
-    """Bound the cache: beyond the `keep` most recently used fact directories, remove those not used for an hour (never one
+def _prune(keep=24, min_age=900):
+    """Bound the cache: beyond the `keep` most recently used fact directories, remove those not used for a quarter of an hour (never one
     that a concurrently running check may still be reading)."""
     d = os.path.join(CACHE, "facts")
     ents = []
